@@ -28,6 +28,14 @@ def run_one(scn: cw.Scenario, policy: Any, **kw: Any) -> dict[str, Any]:
 
 # ---- exploration jobs (picklable descriptions, executed in worker processes) ----------
 def _job(job: dict[str, Any]) -> list[dict[str, Any]]:
+    try:
+        return _job_inner(job)
+    except sched.HarnessDeadlock as ex:
+        raise sched.HarnessDeadlock(f"{ex} in scenario {job['scn']['name']} family={job['scn']['family']} "
+                                    f"mode={job['scn']['mode']} reroute={job['scn']['reroute_on_cc']} job={job['mode']}") from None
+
+
+def _job_inner(job: dict[str, Any]) -> list[dict[str, Any]]:
     scn = cw.Scenario(**job["scn"])
     mode = job["mode"]
     out: list[dict[str, Any]] = []
@@ -80,6 +88,11 @@ def _job(job: dict[str, Any]) -> list[dict[str, Any]]:
                 keep(r, {"mode": "crash", "victim": name, "k": k, "seed": job.get("seed"),
                          "schedule": r["schedule"]})
         out[0]["stats"] = {"executions": ncrash + 1, "truncated": 0}
+    elif mode == "model":
+        pol = ModelReplay(job["error_trace"])
+        r = run_one(scn, pol, **job.get("kw", {}))
+        keep(r, {"mode": "model", "schedule": r["schedule"], "unmatched": pol.unmatched,
+                 "consumed": pol.i, "steps": len(pol.steps)})
     elif mode == "replay":
         r = run_one(scn, sched.Replay(job["schedule"]), **job.get("kw", {}))
         keep(r, {"mode": "replay", "schedule": job["schedule"], **job.get("kw", {})})
@@ -153,3 +166,70 @@ def _brief(e: dict[str, Any]) -> str:
 def preempted_at(r: dict[str, Any]) -> list[str]:
     """Where (which pending operation) actors were switched away from while still enabled."""
     return sorted(set(r.get("how", {}).get("preempted", [])))
+
+
+# ---- spec -> code: replay a TLC behaviour (counterexample) of PynencCore on the real code --------
+ACTION_OP = {
+    "P_Start": "blocking_scan", "P_Pop": "retrieve", "P_Read": "read_status", "P_Cand": "lookup",
+    "P_Claim": "set_status", "P_SetCC": "set_status", "P_RrStatus": "set_status", "P_RrRoute": "route",
+    "W_Auth": "lookup", "W_SetRunning": "set_status", "W_Body": "body", "W_SetResult": "set_result",
+    "W_SetSuccess": "set_status", "W_SrStatus": "set_status", "W_SrRoute": "route", "W_ReadRetries": None,
+    "W_SetRetry": "set_status", "W_Inc": "inc_retries", "W_RetryRoute": "route", "W_SetExc": "set_exception",
+    "W_SetFailed": "set_status", "R_Scan": ("scan_pending", "scan_running"), "R_Mark": "set_status",
+    "R_RrStatus": "set_status", "R_RrRoute": "route",
+    "C_Next": None, "C_Register": "register", "C_Route": "route", "C_Index": "index", "C_Return": None,
+}
+OPTIONAL_OPS = {"lookup"}      # absent in the code when concurrency control is disabled
+
+
+def model_actor_name(tup: Any) -> str:
+    t = [str(x) for x in tup]
+    return {"p": f"p:{t[1]}", "c": f"c:{t[1]}", "rp": f"recp:{t[1]}", "rr": f"recr:{t[1]}",
+            "s": f"s:{t[1]}"}.get(t[0]) or f"w:{t[1]}:{t[2]}"
+
+
+class ModelReplay:
+    """Policy that drives the real actors along a TLC behaviour: for each model step, the named actor
+    is stepped until the backend call that corresponds to the action has been performed."""
+
+    def __init__(self, error_trace: list[dict[str, Any]]) -> None:
+        self.steps: list[tuple[str, Any]] = []
+        for st in error_trace:
+            head = st["action"]
+            name = head.split("(")[0].strip()
+            if name not in ACTION_OP or "(" not in head:
+                continue
+            arg = head[head.index("(") + 1: head.rindex(")")]
+            self.steps.append((model_actor_name(tlc.parse_value(arg)), ACTION_OP[name]))
+        self.i = 0
+        self.spins = 0
+        self.unmatched: list[str] = []
+
+    def __call__(self, s: sched.Scheduler, en: list[str]) -> str | None:
+        while self.i < len(self.steps):
+            actor, op = self.steps[self.i]
+            if op is None:
+                self.i += 1
+                continue
+            a = s.actors.get(actor)
+            if a is None and actor.startswith("w:"):
+                # the worker thread is started by its runner right after the claim: let the poller get there
+                parent = "p:" + actor.split(":")[1]
+                self.spins += 1
+                if parent in en and self.spins < 50:
+                    return parent
+            if a is None or a.finished or actor not in en:
+                self.unmatched.append(f"{actor}:{op}")
+                self.i += 1
+                continue
+            self.spins = 0
+            label = (a.pending or {}).get("label")
+            ops = op if isinstance(op, tuple) else (op,)
+            if label in ops:
+                self.i += 1          # this step performs the modelled effect
+            elif op in OPTIONAL_OPS and label not in ("start", "blocking_scan", "load"):
+                self.i += 1          # the code has no such call here: internal step of the model
+                continue
+            return actor
+        # behaviour consumed: let everybody finish
+        return sched.sequential(s, en)
